@@ -681,5 +681,11 @@ PROPS["C05"]["rules"] = PROPS["C05"]["rules"] + [rules_loops.rule_cursor_advance
 PROPS["C05"]["explanation"] += " (CURSORADV) a buffer cursor is advanced by the bytes just copied through it. (POSLEN) a coder flush whose length is a difference is made only when the difference is positive."
 PROPS["C01"]["rules"] = PROPS["C01"]["rules"] + [rules_loops.rule_cursor_advanced_by_copy]
 
+PROPS["C03"]["rules"] = PROPS["C03"]["rules"] + [rules_sd.rule_fast_dimension_coadjusted]
+PROPS["C03"]["explanation"] += " (COADJUST) NCgenio's whole-dimension optimisation adjusts the transfer count and both odometer steps of that dimension together."
+
+PROPS["C02"]["rules"] = PROPS["C02"]["rules"] + [rules_loops.rule_last_block_needs_no_successor]
+PROPS["C02"]["explanation"] += " (LASTBLOCK) HLgetdatainfo takes a block for the element's last one only under a test of its table's successor link."
+
 NOT_APPLICABLE = {}
 
